@@ -429,6 +429,18 @@ fn auth_digest(p: &Value) -> Value {
 }
 
 /// C04: one history per connection
+/// Packet numbers are only unique per sending connection: several server connections may answer one
+/// client (a retransmitted Initial after the first attempt was closed). The identity used by the
+/// specification is made unique by scoping the number with the sender's connection id.
+fn sender_scoped(e: &Value) -> Vec<Value> {
+    let suid = e["suid"].as_i64().unwrap_or(-1) + 1;
+    e["ipk"].as_array().cloned().unwrap_or_default().into_iter().map(|mut p| {
+        let pn = p["pn"].as_i64().unwrap_or(0);
+        p["pn"] = json!((pn % 1_000_000) + 1_000_000 * (suid % 2000));
+        p
+    }).collect()
+}
+
 pub fn auth(trace: &[Value]) -> Vec<Value> {
     let run = trace[0]["run"].clone();
     let mut out = Vec::new();
@@ -457,7 +469,7 @@ pub fn auth(trace: &[Value]) -> Vec<Value> {
                 }
             }
             "Rx" if e["kind"] == "new" => {
-                first_ipk = e["ipk"].clone();
+                first_ipk = json!(sender_scoped(e));
                 first_cls = e["cls"].clone();
             }
             "Rx" if e["kind"] == "conn" => {
@@ -470,7 +482,7 @@ pub fn auth(trace: &[Value]) -> Vec<Value> {
                     .map(|a| a.iter().enumerate().filter(|(_, x)| x.as_i64().unwrap_or(0) > 0)
                         .map(|(i, x)| json!([i + 1, x])).collect())
                     .unwrap_or_default();
-                let ipk = e["ipk"].as_array().cloned().unwrap_or_default();
+                let ipk = sender_scoped(e);
                 let kind = if e["rtok"] == "exact" || e["rtok"] == "maybe" {
                     "reset"
                 } else if e["otypes"].as_str().unwrap_or("").contains('R') {
